@@ -807,3 +807,113 @@ Proof.
   do 16 (split; [vm_compute; reflexivity|]). split; [vm_compute; repeat split; reflexivity|].
   split; vm_compute; reflexivity.
 Qed.
+
+(* ====================================================================== the byte-level bridge (worker lexer, Proofs/FmtShapeBridge*.v)
+   The monitor's domain test for the re-indentation clause is Spec.FmtShape.same_modulo_line_edges src1 src2 = Some true (the coarse
+   reference reader of the shape clauses: the same tokens after dropping blank tokens at the edges of lines, the trailing blanks of
+   end-of-line comments, and writing every line end as LF).  C10_edges_to_ref_equiv: for two sources of the reference dialect that
+   relation implies ref_reindent_equiv on the reference tokens of Spec/LuaLex.v, the hypothesis of C10_reindent_bytes_partial.  No
+   restriction on the sources: strings and comments with blanks and line ends inside, numerals such as 1e-5, multi-byte operators, labels,
+   CR LF against LF.  Route: both readers refine one skeleton reader (FmtShape.lex1 with every code token that is not a string cut down
+   to its first byte), hence agree on where white space, line ends, comments and strings are (marks_agree); between two such places the
+   code bytes of the two sources are the same and the full lexer reads the same tokens there (step_ctx; in front of differing white
+   space sig_ctx_ws); FmtShape.edge_norm against strip_line_edges o canon_ws run by run (run_norm). *)
+From PV Require Proofs.FmtShapeBridgeMain Proofs.FmtShapeBridgeTop.
+
+Theorem C10_edges_to_ref_equiv : forall src1 src2 ss1 ss2,
+  LuaLex.spec_lex src1 = Some ss1 -> LuaLex.spec_lex src2 = Some ss2 ->
+  FmtShape.same_modulo_line_edges src1 src2 = Some true ->
+  FmtRelexReindent.ref_reindent_equiv (map HoldsC01.unpos ss1) (map HoldsC01.unpos ss2).
+Proof. exact FmtShapeBridgeMain.edges_to_ref_equiv. Qed.
+Print Assumptions C10_edges_to_ref_equiv.
+
+(* the two reference readers agree on the trivia structure of every text both accept: one mark per white-space / newline / comment token
+   (with its bytes), one mark per byte of a code token *)
+Theorem C10_readers_agree_on_trivia : forall s ts ss, FmtShape.lex s = Some ts -> LuaLexFacts.chain s ss ->
+  FmtShapeBridge.marksF ts = FmtShapeBridge.marksS ss.
+Proof. exact FmtShapeBridgeStep.marks_agree. Qed.
+Print Assumptions C10_readers_agree_on_trivia.
+
+(* C10, re-indentation clause from source bytes: "re-indenting or adding trailing spaces to input lines does not change the output".
+   THE hypothesis relating the two sources is the monitor's: same_modulo_line_edges src1 src2 = Some true.  The others are the domain of
+   C10_reindent_invariant on both sources: bytes, in the reference dialect, lexed by the lexer model, parsed to the end by the parser
+   model, writable, no trailing table field separator, gaps_tidy. *)
+Theorem C10_reindent_bytes : forall w src1 ss1 lts1 root1 e1 src2 ss2 lts2 root2 e2,
+  Forall byte src1 -> LuaLex.spec_lex src1 = Some ss1 -> Lexer.model_lex [src1] = Ok lts1 ->
+  lua_parse (map LexToken.lex_token lts1) = Ok (root1, e1) -> consumed (map LexToken.lex_token lts1) e1 = true ->
+  writable (map LexToken.lex_token lts1) root1 = true -> no_trailing_sep root1 = true -> gaps_tidy (map LexToken.lex_token lts1) = true ->
+  Forall byte src2 -> LuaLex.spec_lex src2 = Some ss2 -> Lexer.model_lex [src2] = Ok lts2 ->
+  lua_parse (map LexToken.lex_token lts2) = Ok (root2, e2) -> consumed (map LexToken.lex_token lts2) e2 = true ->
+  writable (map LexToken.lex_token lts2) root2 = true -> no_trailing_sep root2 = true -> gaps_tidy (map LexToken.lex_token lts2) = true ->
+  FmtShape.same_modulo_line_edges src1 src2 = Some true ->
+  writer_text (fmt_spaces w) (map LexToken.lex_token lts1) (view root1) = writer_text (fmt_spaces w) (map LexToken.lex_token lts2) (view root2).
+Proof. exact FmtShapeBridgeTop.reindent_bytes. Qed.
+Print Assumptions C10_reindent_bytes.
+
+(* non-vacuity of the bridge: two layouts with a two-line block comment, a string with blanks, a long string over two lines, 1e-5, `..`,
+   `~=`, `+=`, a label, `...`, `--` and `//` comments, tabs, trailing blanks; and CR LF against LF *)
+Definition C10_bridge1 : list Z := unBS "--[[ block
+   comment ]]  
+function f(a,...)
+	local s = ""a b  ""..[==[ long
+  string ]==]
+  if a ~= 1e-5 then  -- why  
+    ::top:: x += .5 // c
+  end
+	
+end
+"%bs.
+Definition C10_bridge2 : list Z := unBS "--[[ block
+   comment ]]
+    function f(a,...)
+local s = ""a b  ""..[==[ long
+  string ]==]   
+if a ~= 1e-5 then  -- why
+::top:: x += .5 // c	
+end
+
+   end  
+"%bs.
+Definition C10_bridge3 : list Z := unBS "x=1  "%bs ++ [13; 10] ++ unBS "  y=2"%bs ++ [13; 10].
+Definition C10_bridge4 : list Z := unBS "x=1
+y=2
+"%bs.
+
+Example C10_edges_to_ref_equiv_nonvacuous :
+  (exists ss1 ss2, zlist_eqb C10_bridge1 C10_bridge2 = false /\ LuaLex.spec_lex C10_bridge1 = Some ss1 /\ LuaLex.spec_lex C10_bridge2 = Some ss2 /\
+     length ss1 <> length ss2 /\ FmtShape.same_modulo_line_edges C10_bridge1 C10_bridge2 = Some true /\
+     FmtRelexReindent.ref_reindent_equiv (map HoldsC01.unpos ss1) (map HoldsC01.unpos ss2)) /\
+  (exists ss3 ss4, LuaLex.spec_lex C10_bridge3 = Some ss3 /\ LuaLex.spec_lex C10_bridge4 = Some ss4 /\
+     FmtShape.same_modulo_line_edges C10_bridge3 C10_bridge4 = Some true /\
+     FmtRelexReindent.ref_reindent_equiv (map HoldsC01.unpos ss3) (map HoldsC01.unpos ss4)).
+Proof.
+  split.
+  - destruct (LuaLex.spec_lex C10_bridge1) as [ss1|] eqn:E1; [|vm_compute in E1; discriminate E1].
+    destruct (LuaLex.spec_lex C10_bridge2) as [ss2|] eqn:E2; [|vm_compute in E2; discriminate E2].
+    exists ss1, ss2. split; [vm_compute; reflexivity|]. split; [reflexivity|]. split; [reflexivity|].
+    assert (He : FmtShape.same_modulo_line_edges C10_bridge1 C10_bridge2 = Some true) by (vm_compute; reflexivity).
+    split; [|split; [exact He | exact (C10_edges_to_ref_equiv _ _ _ _ E1 E2 He)]].
+    vm_compute in E1. vm_compute in E2. injection E1 as <-. injection E2 as <-. vm_compute. discriminate.
+  - destruct (LuaLex.spec_lex C10_bridge3) as [ss3|] eqn:E3; [|vm_compute in E3; discriminate E3].
+    destruct (LuaLex.spec_lex C10_bridge4) as [ss4|] eqn:E4; [|vm_compute in E4; discriminate E4].
+    exists ss3, ss4. split; [reflexivity|]. split; [reflexivity|].
+    assert (He : FmtShape.same_modulo_line_edges C10_bridge3 C10_bridge4 = Some true) by (vm_compute; reflexivity).
+    split; [exact He | exact (C10_edges_to_ref_equiv _ _ _ _ E3 E4 He)].
+Qed.
+
+(* the two sources of C10_reindent_bytes_nonvacuous meet every hypothesis of C10_reindent_bytes (same_modulo_line_edges is its second
+   conjunct), so the theorem applies to them: its conclusion, from the theorem *)
+Example C10_reindent_bytes_applies : forall ss1 lts1 root1 e1 ss2 lts2 root2 e2,
+  LuaLex.spec_lex C10_bytes1 = Some ss1 -> Lexer.model_lex [C10_bytes1] = Ok lts1 ->
+  lua_parse (map LexToken.lex_token lts1) = Ok (root1, e1) -> consumed (map LexToken.lex_token lts1) e1 = true ->
+  writable (map LexToken.lex_token lts1) root1 = true -> no_trailing_sep root1 = true -> gaps_tidy (map LexToken.lex_token lts1) = true ->
+  LuaLex.spec_lex C10_bytes2 = Some ss2 -> Lexer.model_lex [C10_bytes2] = Ok lts2 ->
+  lua_parse (map LexToken.lex_token lts2) = Ok (root2, e2) -> consumed (map LexToken.lex_token lts2) e2 = true ->
+  writable (map LexToken.lex_token lts2) root2 = true -> no_trailing_sep root2 = true -> gaps_tidy (map LexToken.lex_token lts2) = true ->
+  writer_text (fmt_spaces 2) (map LexToken.lex_token lts1) (view root1) = writer_text (fmt_spaces 2) (map LexToken.lex_token lts2) (view root2).
+Proof.
+  intros. eapply (C10_reindent_bytes 2 C10_bytes1 ss1 lts1 root1 e1 C10_bytes2 ss2 lts2 root2 e2); try eassumption.
+  - apply all_bytes_Forall. vm_compute. reflexivity.
+  - apply all_bytes_Forall. vm_compute. reflexivity.
+  - vm_compute. reflexivity.
+Qed.
